@@ -385,7 +385,7 @@ func runC08(p *core.Prog, r *core.Result) {
 			}
 		} else {
 			// the case is selected by x.Type() == "K" on this path: the types answering K must all be zero-size
-			for f := range p.FactsAt(pc.Ret) {
+			for _, f := range xfacts(p, pc.Ret) {
 				bo, ok := f.Cond.(*ssa.BinOp)
 				if !ok || !f.Val || bo.Op != token.EQL {
 					continue
